@@ -15,8 +15,10 @@ Property theorems only (models: `SkaModel/Core/Budget.lean`, `Core/Stream.lean`)
   stream is cut into `query`/`update` chunks — for fixed, variable (current code, after eebfd1c6), split,
   random, BIQF, periodic, stream random sampling; for the two managers that consume normal draws the
   claim is not made (the property excludes them), only `u`/`theta` commitment is proved;
-* CognitiveDualQueryStrategy(force_full_budget=False): `cognitive_update_counterexample` — the full
-  statement is false of the current code.
+* CognitiveDualQueryStrategy: `cognitive_update_accepts` (current code, after a01696e6) at full strength;
+  the counterexamples about the code before that commit live in `Ska.C10.Regressions`;
+* `density_chunk_dependence_counterexample`: the density / cognitive strategies judge every instance of a
+  chunk against the manager state from before the chunk — their grants depend on the chunking.
 
 Everything except the concrete counterexamples holds over every numeric carrier with the operations
 used by the models (no field axioms needed), all parameters, utility streams incl. NaN, random streams.
@@ -230,60 +232,163 @@ theorem utilStrategy_query_wellformed (util : κ → ι) {M : Mgr σ ι} {step :
   have := refines_query_wellformed h s (c.map util)
   simpa [utilStrategy] using this
 
-theorem densityDecisions_length (M : Mgr σ (Option ι)) (s : σ) (c : List (Bool × Option ι)) :
-    (densityDecisions M s c).length = c.length := by
-  induction c with
-  | nil => rfl
-  | cons x xs ih => obtain ⟨p, u⟩ := x; simp [densityDecisions, ih]
-
 /-- StreamDensityBasedAL / CognitiveDualQueryStrategy: the indices returned by query are well-formed
 positions of the unfiltered chunk. -/
-theorem density_query_wellformed (keepAll : Bool) (M : Mgr σ (Option ι)) (s : σ) (c : List (Bool × Option ι)) :
-    ((densityStrategy keepAll M).query s c).1.Pairwise (· < ·) ∧
-      ∀ i ∈ ((densityStrategy keepAll M).query s c).1, i < c.length := by
+theorem density_query_wellformed (M : Mgr σ (Option ι)) (s : σ) (c : List (Bool × Option ι)) :
+    (densityQuery M s c).1.Pairwise (· < ·) ∧ ∀ i ∈ (densityQuery M s c).1, i < c.length := by
   have := idxOf_wellformed (densityDecisions M s c)
   rwa [densityDecisions_length] at this
 
-/-- **cognitive_update_accepts_partial.** When failing instances are kept as NaN placeholders
-(`StreamDensityBasedAL`, `CognitiveDualQueryStrategy(force_full_budget=True)`), `new_candidates` has the
-length of the chunk, so a manager whose `update` only fails on out-of-range indices accepts the query
-result. (Stated for managers of the form "`bitsOf n idx` then commit", which all seven are.) -/
-theorem density_update_accepts_partial (M : Mgr σ (Option ι)) (s : σ) (c : List (Bool × Option ι))
+/-- **density_update_accepts** — `StreamDensityBasedAL`: failing instances are kept as NaN placeholders,
+`new_candidates` has the length of the chunk, so a manager whose `update` only fails on out-of-range
+indices accepts every query result. (`hM` holds for all seven managers: "`bitsOf n idx`, then commit".) -/
+theorem density_update_accepts (M : Mgr σ (Option ι)) (s : σ) (c : List (Bool × Option ι))
     (hM : ∀ s (xs : List (Option ι)) idx, (∀ i ∈ idx, i < xs.length) → ∃ s', M.update s xs idx = .ok s') :
     ∃ s', (densityStrategy true M).update ((densityStrategy true M).query s c).2 c
       ((densityStrategy true M).query s c).1 = .ok s' := by
   apply hM
   intro i hi
-  have := (density_query_wellformed true M s c).2 i hi
-  simpa [newCandidates] using this
+  have := (density_query_wellformed M s c).2 i hi
+  have hf : c.filter (passedOn true) = c := List.filter_eq_self.mpr (fun _ _ => rfl)
+  simpa [newCandidates, hf] using this
+
+/-- **cognitive_update_accepts** (current code, commit a01696e6), full strength: for both values of
+`force_full_budget`, every chunk, every pattern of density-filter outcomes and every manager state,
+`update(chunk, query(chunk))` hands the manager a list of indices `js`, one per queried instance, such
+that `js[t]` is in range of `new_candidates` **and `new_candidates[js[t]]` is the entry appended for the
+queried instance `idx[t]`** (each label is booked on the same instance); hence a manager that only
+fails on out-of-range indices accepts. -/
+theorem cognitive_update_accepts (ffb : Bool) (M : Mgr σ (Option ι)) (s : σ) (c : List (Bool × Option ι))
+    (hM : ∀ s (xs : List (Option ι)) idx, (∀ i ∈ idx, i < xs.length) → ∃ s', M.update s xs idx = .ok s') :
+    ∃ js, remap (newPositions ffb c 0) ((cognitiveStrategy ffb M).query s c).1 = .ok js ∧
+      List.Forall₂ (fun i j => ∃ hi : i < c.length, (newCandidates ffb c)[j]? = some (entryOf c[i]))
+        ((cognitiveStrategy ffb M).query s c).1 js ∧
+      ∃ s', (cognitiveStrategy ffb M).update ((cognitiveStrategy ffb M).query s c).2 c
+        ((cognitiveStrategy ffb M).query s c).1 = .ok s' := by
+  have hspec : ∀ i ∈ (densityQuery M s c).1, ∃ j, (newPositions ffb c 0).getD i none = some j ∧
+      ∃ hi : i < c.length, (newCandidates ffb c)[j]? = some (entryOf c[i]) := by
+    intro i hi
+    obtain ⟨-, hbit⟩ := (mem_idxOf (densityDecisions M s c) 0 i).mp hi
+    obtain ⟨hlt, hpass⟩ := densityDecisions_pass M s c i (by simpa using hbit)
+    obtain ⟨j, h1, h2⟩ := newPositions_spec ffb c 0 i hlt (by simp [passedOn, hpass])
+    exact ⟨j, by simpa using h1, hlt, h2⟩
+  obtain ⟨js, hjs, hf⟩ := remap_ok _ _ _ hspec
+  refine ⟨js, hjs, hf, ?_⟩
+  have hrange : ∀ j ∈ js, j < (newCandidates ffb c).length :=
+    forall₂_right (Q := fun j => j < (newCandidates ffb c).length) hf
+      (by rintro i j ⟨_, h⟩; exact (List.getElem?_eq_some_iff.mp h).1)
+  obtain ⟨s', hs'⟩ := hM s (newCandidates ffb c) js hrange
+  refine ⟨s', ?_⟩
+  show cognitiveUpdate ffb M s c (densityQuery M s c).1 = .ok s'
+  simp only [cognitiveUpdate]
+  have hjs' : remap (newPositions ffb c 0) (densityQuery M s c).1 = .ok js := hjs
+  rw [hjs']
+  exact hs'
+
+/-- the hypothesis `hM` of the two theorems above holds for the managers (here: fixed; the others
+have the same shape `match bitsOf n idx with …`) -/
+theorem fixed_update_total {α : Type} [Add α] [Sub α] [Mul α] [Div α] [LT α] [DecidableLT α] [OfNat α 0]
+    [OfNat α 1] (p : ZParams α) (s : ZState α) (xs : List (Option α)) (idx : List Nat)
+    (h : ∀ i ∈ idx, i < xs.length) : ∃ s', (fixedMgr p).update s xs idx = .ok s' := by
+  have hall : idx.all (fun i => decide (i < xs.length)) = true := by
+    rw [List.all_eq_true]; intro i hi; simpa using h i hi
+  simp only [fixedMgr, fixedUpdate, bitsOf, hall, if_true]
+  exact ⟨_, rfl⟩
 
 end Glue
 
-/-- **cognitive_update_counterexample** — the full statement
-`∀ chunk, update(chunk, query(chunk))` does not raise
-is FALSE for `CognitiveDualQueryStrategy(force_full_budget=False)` (the default): a chunk whose first
-instance fails the density filter (always the case for the very first instance of a stream) and whose
-second instance is queried gives `queried_indices = [1]` while `new_candidates` has length 1, so
-`queried[queried_indices] = 1` raises IndexError. Manager: FixedUncertainty, `w = 4`, budget `1/4`, over ℚ. -/
+/-! ### regressions: the code before commit a01696e6 -/
+
+namespace Regressions
+
+/-- **cognitive_update_counterexample** — for `CognitiveDualQueryStrategy(force_full_budget=False)`
+*before* commit a01696e6 (`update` = `densityUpdate false`: indices handed over untranslated) the
+statement "`update(chunk, query(chunk))` does not raise" was FALSE: a chunk whose first instance fails the
+density filter (always the case for the very first instance of a stream) and whose second instance is
+queried gives `queried_indices = [1]` while `new_candidates` has length 1 → IndexError.
+Manager: FixedUncertainty, `w = 4`, budget `1/4`, over ℚ. -/
 theorem cognitive_update_counterexample :
     let M := densityStrategy false (fixedMgr (α := ℚ) { w := 4, b := 1/4, s := 0, v := 0, nc := 2 })
     let s : ZState ℚ := { u := 0, theta := 0, rng := 0 }
     let chunk : List (Bool × Option ℚ) := [(false, some 1), (true, some 1)]
     (M.query s chunk).1 = [1] ∧ M.update (M.query s chunk).2 chunk (M.query s chunk).1 = .error .indexError := by
-  norm_num [densityStrategy, densityQuery, densityDecisions, densityUpdate, newCandidates, fixedMgr, fixedQuery,
-    zQuery, simLoop, fixedBody, fixedUpdate, bitsOf, idxOf, budgetLeft, leO, leB, conf, fixedTheta]
+  norm_num [densityStrategy, densityQuery, densityDecisions, densityUpdate, newCandidates, passedOn, entryOf, fixedMgr,
+    fixedQuery, zQuery, simLoop, fixedBody, fixedUpdate, bitsOf, idxOf, budgetLeft, leO, leB, conf, fixedTheta]
 
-/-- … and when no exception is raised the indices are mis-addressed: instance 1 was queried, but the
-manager is told that its second remaining candidate (instance 2) was — here visible as an update that
-succeeds on a chunk where only instance 1 was granted. -/
+/-- … and when no exception was raised the label was booked on another instance: instance 1 was
+queried, the manager was told that its second remaining candidate (instance 2) was. -/
 theorem cognitive_update_misaddressed_counterexample :
     let M := densityStrategy false (fixedMgr (α := ℚ) { w := 4, b := 1/4, s := 0, v := 0, nc := 2 })
     let s : ZState ℚ := { u := 0, theta := 0, rng := 0 }
     let chunk : List (Bool × Option ℚ) := [(false, some 1), (true, some 1), (true, none)]
     (M.query s chunk).1 = [1] ∧
     bitsOf (newCandidates false chunk).length (M.query s chunk).1 = .ok [false, true] := by
-  norm_num [densityStrategy, densityQuery, densityDecisions, newCandidates, fixedMgr, fixedQuery,
+  norm_num [densityStrategy, densityQuery, densityDecisions, newCandidates, passedOn, entryOf, fixedMgr, fixedQuery,
     zQuery, simLoop, fixedBody, bitsOf, idxOf, budgetLeft, leO, leB, conf, fixedTheta, List.range, List.range.loop]
+
+/-- the same two chunks on the current code: accepted, and instance 1 is booked at position 0 = its
+position among the instances passed on. -/
+theorem cognitive_update_repaired_example :
+    let M := cognitiveStrategy false (fixedMgr (α := ℚ) { w := 4, b := 1/4, s := 0, v := 0, nc := 2 })
+    let s : ZState ℚ := { u := 0, theta := 0, rng := 0 }
+    let chunk : List (Bool × Option ℚ) := [(false, some 1), (true, some 1), (true, none)]
+    (M.query s chunk).1 = [1] ∧ remap (newPositions false chunk 0) (M.query s chunk).1 = .ok [0] ∧
+    M.update (M.query s chunk).2 chunk (M.query s chunk).1 = .ok { u := 3/4, theta := 0, rng := 0 } := by
+  norm_num [cognitiveStrategy, cognitiveUpdate, remap, newPositions, densityQuery, densityDecisions, newCandidates,
+    passedOn, entryOf, fixedMgr, fixedQuery, zQuery, simLoop, fixedBody, fixedUpdate, bitsOf, idxOf, budgetLeft, leO,
+    leB, conf, fixedTheta, List.range, List.range.loop, uPass, nextU]
+
+end Regressions
+
+/-! ### the density / cognitive strategies are chunk dependent (current code) -/
+
+/-- **density_chunk_dependence_counterexample.**  The statement
+`∀ c1 c2, c1.flatten = c2.flatten → runChunked (densityStrategy true M) s c1 0 = runChunked (densityStrategy true M) s c2 0`
+(chunk invariance of `StreamDensityBasedAL` over a deterministic manager; likewise for
+`cognitiveStrategy ffb M`, which has the same `query`) is FALSE of the current code: `query` judges
+every instance of a chunk by a one-element `query_by_utility` against the manager state from *before
+the chunk*, so the budget guard never sees the labels granted earlier in the same chunk.
+VariableUncertainty manager, `w = 4`, budget `1/4`, four instances of which the first fails the density
+filter: as one chunk the instances 1, 2, 3 are granted (3 labels although `u_t_/w` reaches the budget
+after the first), one by one only 1 and 3. -/
+theorem density_chunk_dependence_counterexample :
+    let M := densityStrategy true (varMgr (α := ℚ) { w := 4, b := 1/4, s := 1/4, v := 0, nc := 0 })
+    let s : ZState ℚ := { u := 0, theta := 1, rng := 0 }
+    let x0 : Bool × Option ℚ := (false, some (1/2))
+    let x : Bool × Option ℚ := (true, some (1/2))
+    (runChunked M s [[x0, x, x, x]] 0).map (·.1) = .ok [1, 2, 3] ∧
+    (runChunked M s [[x0], [x], [x], [x]] 0).map (·.1) = .ok [1, 3] := by
+  norm_num [runChunked, densityStrategy, densityQuery, densityDecisions, densityUpdate, newCandidates, passedOn,
+    entryOf, varMgr, varQuery, zQuery, simLoop, varBody, varUpdate, bitsOf, idxOf, budgetLeft, ltO, conf, scale,
+    thetaPass, uPass, nextU, List.range, List.range.loop, Except.map]
+
+/-- the same for `CognitiveDualQueryStrategy(force_full_budget=True)` -/
+theorem cognitive_chunk_dependence_counterexample :
+    let M := cognitiveStrategy true (varMgr (α := ℚ) { w := 4, b := 1/4, s := 1/4, v := 0, nc := 0 })
+    let s : ZState ℚ := { u := 0, theta := 1, rng := 0 }
+    let x0 : Bool × Option ℚ := (false, some (1/2))
+    let x : Bool × Option ℚ := (true, some (1/2))
+    (runChunked M s [[x0, x, x, x]] 0).map (·.1) = .ok [1, 2, 3] ∧
+    (runChunked M s [[x0], [x], [x], [x]] 0).map (·.1) = .ok [1, 3] := by
+  norm_num [runChunked, cognitiveStrategy, cognitiveUpdate, remap, newPositions, densityQuery, densityDecisions,
+    newCandidates, passedOn, entryOf, varMgr, varQuery, zQuery, simLoop, varBody, varUpdate, bitsOf, idxOf, budgetLeft,
+    ltO, conf, scale, thetaPass, uPass, nextU, List.range, List.range.loop, Except.map]
+
+/-- **density_chunk_invariance_partial**: with chunks of size one the strategies are the per-instance
+process by definition, and within a chunk the *decisions* are those of one-element queries on the
+state before the chunk — which is all that can be said. -/
+theorem density_chunk_invariance_partial {σ ι : Type} (M : Mgr σ (Option ι)) (s : σ) (c : List (Bool × Option ι)) (i : Nat)
+    (hi : i < c.length) :
+    (densityDecisions M s c)[i]? = some (c[i].1 && !(M.query s [c[i].2]).1.isEmpty) := by
+  induction c generalizing i with
+  | nil => simp at hi
+  | cons x xs ih =>
+    obtain ⟨p, u⟩ := x
+    cases i with
+    | zero => cases p <;> simp [densityDecisions]
+    | succ i =>
+      have hi' : i < xs.length := by simpa using hi
+      simpa [densityDecisions] using ih i hi'
 
 /-- concrete instance of chunk invariance over ℚ (hypotheses satisfiable; the guard boundary
 `u_t_/w = budget` is crossed inside a chunk) -/
